@@ -163,6 +163,9 @@ def gen_case(run_seed: int, tier: str) -> dict[str, Any]:
         # some workloads start from files that are already formatted for this very invocation
         # (the "nothing to change" path of an implementation is a path too)
         "prefmt": inplace and k.random() < 0.2,
+        # I/O behaviour during the faulted executions: with "thirds" every raw transfer is short, so
+        # the temp file is written by several raw writes and crashes / errors land between them
+        "sweep_chunking": k.choice(["none", "none", "none", "thirds"]),
     }
 
 
@@ -662,8 +665,16 @@ def _run_case(env: Env, case: dict[str, Any], scratch: str, want_trace: bool) ->
     else:
         rng = random.Random(case["sweep_seed"])
         tier = case.get("tier", "quick")
+        sweep_knobs: dict[str, Any] = {"listing": "native"}
+        if case.get("sweep_chunking", "none") != "none":
+            # the sweep is enumerated over the operations of a baseline taken with the same I/O behaviour
+            sweep_knobs["chunking"] = case["sweep_chunking"]
+            exb, _ = _exec_once(case, scratch, [], sweep_knobs, None)
+            base_log = list(exb.ip.log)
+            K = len(base_log)
+            counters["baseline_ops"] = K
         for plan in enumerate_single_faults(base_log, rng, tier):
-            one(plan, {"listing": "native"}, all(f["kind"] in LEGAL_KINDS for f in plan))
+            one(plan, dict(sweep_knobs), all(f["kind"] in LEGAL_KINDS for f in plan))
         # seeded sequences of 2-3 faults
         singles = enumerate_single_faults(base_log, rng, tier)
         nonfatal = [p[0] for p in singles if p[0]["kind"] in ("errno", "short_write", "short_read")]
@@ -677,7 +688,7 @@ def _run_case(env: Env, case: dict[str, Any], scratch: str, want_trace: bool) ->
             if len(ats) < len(seq):
                 continue
             seq.sort(key=lambda f: f["at"])
-            one(seq, {"listing": "native"}, False)
+            one(seq, dict(sweep_knobs), False)
         # legal-knob variants: chunked transfers, EINTR, buffer sizes, listing order
         for kn in gen_knob_variants(rng):
             one([], kn, True)
